@@ -1,1 +1,197 @@
-//! c05 — harnesses not written yet.
+//! C05 — objective values are never stale: evaluated individuals carry f(solution).
+//! Code: mahf::problems::individual::Individual::{new,new_unevaluated,evaluate_with,set_objective,solution,solution_mut,into_solution,is_evaluated,get_objective,objective,clone,clone_from,eq}
+//! Code: mahf::population::{AsSolutionsMut,IntoSolutions,IntoIndividuals,IntoSingle,IntoSingleRef,BestIndividual}, mahf::state::common::BestIndividual::update
+//! Out: the per-component preservation step for components with Vec encodings through a State (class S; covered where tractable by the driver harnesses of C11/C12/C13/C14 and the component harnesses of C06/C07/C17); composition over whole runs is an induction over C03, not a solver query
+//! Assume: objective function = symbolic table of 4 legal values over (solution & 3); set_objective is only called with f(solution) (its documented contract); one arbitrary public-API operation from an arbitrary consistent individual (inductive step)
+use mahf::population::{AsSolutionsMut, BestIndividual as BestOf, IntoIndividuals, IntoSingle, IntoSingleRef, IntoSolutions};
+use mahf::state::common::BestIndividual;
+use mahf::Individual;
+
+use crate::problems::{obj, TagP};
+use crate::sym;
+
+type Ind = Individual<TagP>;
+
+fn table() -> [f64; 4] {
+    [sym::legal_f64(), sym::legal_f64(), sym::legal_f64(), sym::legal_f64()]
+}
+fn f(t: &[f64; 4], sol: u8) -> f64 {
+    t[(sol & 3) as usize]
+}
+/// An arbitrary individual that satisfies the invariant.
+fn any_ind(t: &[f64; 4]) -> Ind {
+    let sol = sym::u8();
+    if sym::bool() {
+        Individual::new(sol, obj(f(t, sol)))
+    } else {
+        Individual::new_unevaluated(sol)
+    }
+}
+fn consistent(i: &Ind, t: &[f64; 4]) -> bool {
+    match i.get_objective() {
+        Some(o) => o.value().to_bits() == f(t, *i.solution()).to_bits(),
+        None => !i.is_evaluated(),
+    }
+}
+
+/// @h tier=quick bound="one arbitrary operation of the Individual API on an arbitrary consistent individual; objective table symbolic" unwind=4 cost=3
+#[cfg_attr(kani, kani::proof)]
+#[cfg_attr(kani, kani::unwind(4))]
+pub fn h_c05_individual_step() {
+    let t = table();
+    let mut a = any_ind(&t);
+    assert!(consistent(&a, &t), "pre-state satisfies the invariant");
+    let was_evaluated = a.is_evaluated();
+    let old_sol = *a.solution();
+    let x = sym::u8();
+    match sym::upto(6) {
+        0 => {
+            *a.solution_mut() = x;
+            assert!(!a.is_evaluated(), "every access that can change the solution leaves the individual unevaluated");
+            assert!(*a.solution() == x, "the write lands");
+        }
+        1 => {
+            // even a mutable access that writes nothing invalidates
+            let _ = a.solution_mut();
+            assert!(!a.is_evaluated() && *a.solution() == old_sol, "solution_mut alone invalidates and keeps the solution");
+        }
+        2 => {
+            let r = a.set_objective(obj(f(&t, old_sol)));
+            assert!(r == was_evaluated, "set_objective reports whether the individual was evaluated before");
+            assert!(a.is_evaluated(), "set_objective evaluates");
+        }
+        3 => {
+            a.evaluate_with(|s| obj(f(&t, *s)));
+            assert!(a.is_evaluated() && *a.solution() == old_sol, "evaluate_with evaluates and keeps the solution");
+        }
+        4 => {
+            let b = a.clone();
+            assert!(b == a && consistent(&b, &t), "clone keeps solution and objective together");
+            assert!(b.is_evaluated() == was_evaluated && *b.solution() == old_sol, "clone is exact");
+        }
+        5 => {
+            let s = a.clone().into_solution();
+            assert!(s == old_sol, "into_solution returns the solution");
+        }
+        _ => {
+            // reading never changes anything
+            let _ = (a.solution(), a.get_objective(), a.is_evaluated());
+            assert!(a.is_evaluated() == was_evaluated && *a.solution() == old_sol, "reads do not modify");
+        }
+    }
+    assert!(consistent(&a, &t), "an individual never reports an objective value that does not belong to its current solution");
+    vcover!(was_evaluated && !a.is_evaluated(), "invalidated");
+    vcover!(!was_evaluated && a.is_evaluated(), "evaluated");
+}
+
+/// Overwriting one individual with another (`clone_from`, as Vec::clone_from / clone_from_slice
+/// do element-wise) keeps solution and objective together for every combination of evaluated /
+/// unevaluated source and target.
+/// @h tier=quick bound="clone_from between two arbitrary consistent individuals" unwind=4 cost=3
+#[cfg_attr(kani, kani::proof)]
+#[cfg_attr(kani, kani::unwind(4))]
+pub fn h_c05_clone_from() {
+    let t = table();
+    let mut a = any_ind(&t);
+    let b = any_ind(&t);
+    a.clone_from(&b);
+    assert!(*a.solution() == *b.solution(), "clone_from copies the solution");
+    assert!(a.is_evaluated() == b.is_evaluated(), "clone_from copies the evaluation status");
+    assert!(a == b && consistent(&a, &t), "copying keeps solution and objective together");
+    vcover!(!b.is_evaluated(), "unevaluated source");
+    vcover!(b.is_evaluated(), "evaluated source");
+}
+
+/// @h tier=quick bound="equality of two arbitrary individuals is equality of solution and objective" unwind=4 cost=2
+#[cfg_attr(kani, kani::proof)]
+#[cfg_attr(kani, kani::unwind(4))]
+pub fn h_c05_equality() {
+    let t = table();
+    let (a, b) = (any_ind(&t), any_ind(&t));
+    let same_obj = match (a.get_objective(), b.get_objective()) {
+        (Some(x), Some(y)) => x.value() == y.value(),
+        (None, None) => true,
+        _ => false,
+    };
+    assert!((a == b) == (*a.solution() == *b.solution() && same_obj), "individuals are equal iff solution and objective are");
+    vcover!(a == b, "equal");
+    vcover!(a != b && *a.solution() == *b.solution(), "same solution, different status");
+}
+
+/// @h tier=quick bound="population helpers on 2 arbitrary consistent individuals: as_solutions_mut, into_solutions, into_individuals" unwind=5 cost=4
+#[cfg_attr(kani, kani::proof)]
+#[cfg_attr(kani, kani::unwind(5))]
+pub fn h_c05_population_helpers() {
+    let t = table();
+    let mut pop = vec![any_ind(&t), any_ind(&t)];
+    let (s0, s1) = (*pop[0].solution(), *pop[1].solution());
+    let x = sym::u8();
+    {
+        let mut sols = pop.as_solutions_mut();
+        assert!(sols.len() == 2, "one mutable solution per individual");
+        *sols[0] = x;
+        std::mem::forget(sols);
+    }
+    assert!(!pop[0].is_evaluated() && !pop[1].is_evaluated(), "handing out mutable solutions leaves every individual unevaluated");
+    assert!(*pop[0].solution() == x && *pop[1].solution() == s1, "writes land, the rest is kept");
+    let sols = pop.into_solutions();
+    assert!(sols.len() == 2 && sols[0] == x && sols[1] == s1, "into_solutions keeps order and content");
+    let inds: Vec<Ind> = sols.into_individuals();
+    assert!(inds.len() == 2 && !inds[0].is_evaluated() && !inds[1].is_evaluated(), "individuals made from bare solutions are unevaluated");
+    assert!(*inds[0].solution() == x && *inds[1].solution() == s1, "solutions kept");
+    vcover!(s0 != x, "changed");
+    std::mem::forget(inds);
+}
+
+/// @h tier=quick bound="into_single / into_single_ref / best_individual on populations of 0..2 arbitrary evaluated individuals" unwind=5 cost=4
+#[cfg_attr(kani, kani::proof)]
+#[cfg_attr(kani, kani::unwind(5))]
+pub fn h_c05_single_and_best() {
+    let t = table();
+    let n = sym::upto(2) as usize;
+    let (a, b) = (sym::u8(), sym::u8());
+    let mut pop: Vec<Ind> = Vec::with_capacity(2);
+    if n >= 1 {
+        pop.push(Individual::new(a, obj(f(&t, a))));
+    }
+    if n >= 2 {
+        pop.push(Individual::new(b, obj(f(&t, b))));
+    }
+    match pop.best_individual() {
+        Some(best) => {
+            assert!(n >= 1 && consistent(best, &t), "the best individual is a consistent member");
+            assert!(best.objective().value() <= f(&t, a) && (n < 2 || best.objective().value() <= f(&t, b)), "no member is better than the best individual");
+        }
+        None => assert!(n == 0, "only an empty population has no best individual"),
+    }
+    let r = (&pop).into_single_ref();
+    assert!(r.is_ok() == (n == 1), "into_single_ref succeeds exactly for one individual");
+    if let Ok(i) = r {
+        assert!(*i.solution() == a && consistent(i, &t), "the single individual, unchanged");
+    }
+    let r = pop.into_single();
+    assert!(r.is_ok() == (n == 1), "into_single succeeds exactly for one individual");
+    if let Ok(i) = r {
+        assert!(*i.solution() == a && consistent(&i, &t), "moving keeps solution and objective together");
+    }
+    vcover!(n == 2, "two");
+}
+
+/// @h tier=quick bound="BestIndividual::update with an arbitrary evaluated candidate from an arbitrary memory: the memory stays consistent" unwind=4 cost=3
+#[cfg_attr(kani, kani::proof)]
+#[cfg_attr(kani, kani::unwind(4))]
+pub fn h_c05_best_memory_consistent() {
+    let t = table();
+    let mut m = BestIndividual::<TagP>::new();
+    let (p, c) = (sym::u8(), sym::u8());
+    if sym::bool() {
+        m.update(&Individual::new(p, obj(f(&t, p))));
+    }
+    let cand = Individual::new(c, obj(f(&t, c)));
+    m.update(&cand);
+    match &*m {
+        Some(i) => assert!(consistent(i, &t) && i.is_evaluated(), "the best-so-far memory holds a solution together with ITS objective value"),
+        None => assert!(false, "the memory is filled after an update"),
+    }
+    vcover!(true, "reached");
+}
